@@ -871,6 +871,23 @@ class Arr(object):
                         for a, x in zip(rows, self._values_for(v, len(rows))):
                             self.buf[self.offs[a * c + jj]] = _cast_in(x, self.dtype)
                         return
+                    if jk == "slice":
+                        cols = list(range(c))[j]
+                        if isinstance(v, (list, tuple)) and v and isinstance(v[0], (list, tuple, Arr)):
+                            v = array(v)
+                        if isinstance(v, Arr) and v.ndim == 2:
+                            vv = v.fix_len()
+                            if vv.shape != (len(rows), len(cols)):
+                                raise ValueError("could not broadcast input array from shape %s into shape %s" % (vv.shape, (len(rows), len(cols))))
+                            for a_, i_ in enumerate(rows):
+                                for b_, j_ in enumerate(cols):
+                                    self.buf[self.offs[i_ * c + j_]] = _cast_in(vv.buf[vv.offs[a_ * len(cols) + b_]], self.dtype)
+                            return
+                        vals = self._values_for(v, len(cols))
+                        for i_ in rows:
+                            for b_, j_ in enumerate(cols):
+                                self.buf[self.offs[i_ * c + j_]] = _cast_in(vals[b_], self.dtype)
+                        return
                     raise Inconclusive("unsupported 2-D slice assignment")
                 ii = _norm_index(i, r)
                 if isinstance(ii, int):
